@@ -84,6 +84,10 @@ pub struct Topo {
 
 impl Topo {
     pub fn new(kind: u64) -> Topo {
+        if kind == 4 {
+            // an IPv6-only host
+            return Topo { ifs: vec![("eth0", 2, "fe80::10", 64)] };
+        }
         let mut ifs = vec![("eth0", 2, "192.168.1.10", 24)];
         if kind >= 1 {
             ifs.push(("eth0", 2, "fe80::10", 64));
@@ -111,6 +115,9 @@ impl Topo {
     }
     /// address pool for services: in-subnet, off-link, other interface
     fn addr_pool(&self, k: usize) -> Vec<String> {
+        if !self.ifs.iter().any(|i| !i.2.contains(':')) {
+            return vec![format!("fe80::{}", 20 + k), "fe80::10".to_string(), "2001:db8::1".to_string(), "10.9.9.9".to_string()];
+        }
         let mut v = vec![format!("192.168.1.{}", 20 + k), "192.168.1.10".to_string(), "10.9.9.9".to_string()];
         if self.has_v6() {
             v.push(format!("fe80::{}", 20 + k));
@@ -126,7 +133,9 @@ impl Topo {
     }
 }
 
-const INSTS: &[&str] = &["web", "Web", "My Printer", "My.Dotted", "caf\u{e9}", "UPPER", "x (2)", "a-1"];
+// (non-ASCII upper-case letters only in names that are never spelled in another NON-ASCII letter
+//  case: the models fold ASCII letters only, the crate folds Unicode - `flip_case` is ASCII only)
+const INSTS: &[&str] = &["web", "Web", "My Printer", "My.Dotted", "caf\u{e9}", "UPPER", "x (2)", "a-1", "\u{c9}cole", "\u{41f}\u{440}\u{438}\u{43d}\u{442}\u{435}\u{440}"];
 const HOSTS: &[&str] = &["alpha.local.", "Beta.local.", "gamma-2.local.", "alpha.local.local."];
 const PROPS: &[&[(&str, Option<&str>)]] =
     &[&[], &[("path", Some("/"))], &[("Key", Some("v=1")), ("flag", None)], &[("a", Some(""))]];
@@ -462,7 +471,8 @@ pub fn gen_history(r: &mut Rng, k: &Knobs) -> String {
             3 => {
                 let about = if r.chance(1, 8) { &pool[..] } else { &registered[..] };
                 if let Some(q) = gen_query(r, about) {
-                    let v6 = topo.has_v6() && r.chance(1, 3);
+                    let v4_ok = topo.ifs.iter().any(|i| !i.2.contains(':'));
+                    let v6 = topo.has_v6() && (!v4_ok || r.chance(1, 3));
                     // sometimes an interface the daemon does not have
                     let ifi = if r.chance(1, 25) { 9 } else if topo.two() && r.chance(1, 3) { 3 } else { 2 };
                     let src = if v6 { "fe80::50".to_string() } else { r.pick(&srcs4).to_string() };
@@ -477,7 +487,11 @@ pub fn gen_history(r: &mut Rng, k: &Knobs) -> String {
                 // tiebreaking only against single-record-per-type probes (SRV + TXT of an instance)
                 if !registered.is_empty() {
                     if let Some(q) = gen_tiebreak(r, &registered) {
-                        cmds.push(format!("inject 0 2 1 192.168.1.50 5353 {}", q));
+                        cmds.push(if topo.ifs.iter().any(|i| !i.2.contains(':')) {
+                            format!("inject 0 2 1 192.168.1.50 5353 {}", q)
+                        } else {
+                            format!("inject 0 2 0 fe80::50 5353 {}", q)
+                        });
                     }
                 }
             }
@@ -488,7 +502,11 @@ pub fn gen_history(r: &mut Rng, k: &Knobs) -> String {
                         // a `jit` must be followed by an API call: a status-neutral one
                         chan += 1;
                         cmds.push(format!("unregister 0 {} {}", chan, hx("nosuch._x._udp.local.")));
-                        cmds.push(format!("inject 0 2 1 192.168.1.50 5353 {}", q));
+                        cmds.push(if topo.ifs.iter().any(|i| !i.2.contains(':')) {
+                            format!("inject 0 2 1 192.168.1.50 5353 {}", q)
+                        } else {
+                            format!("inject 0 2 0 fe80::50 5353 {}", q)
+                        });
                     }
                 }
             }
@@ -524,7 +542,7 @@ fn count(tier: &str, quick: u64, thorough: u64) -> u64 {
 fn topo_of(r: &mut Rng) -> u64 {
     match std::env::var("VERIF_TOPO").ok().and_then(|s| s.parse::<u64>().ok()) {
         Some(t) => t,
-        None => *r.pick(&[0u64, 0, 1, 1, 2, 3]),
+        None => *r.pick(&[0u64, 0, 1, 1, 2, 3, 4]),
     }
 }
 
